@@ -47,6 +47,7 @@ type output struct {
 	Stubs        map[string]string        `json:"stubs"`
 	Solver       map[string]interface{}   `json:"solver"`
 	Observations []string                 `json:"observations,omitempty"`
+	ObsPaths     [][]string               `json:"observation_paths,omitempty"`
 	Error        string                   `json:"error,omitempty"`
 	WallS        float64                  `json:"wall_s"`
 	LoadS        float64                  `json:"load_s"`
@@ -177,6 +178,7 @@ func main() {
 	out.Reach = res.Reach
 	out.Samples = res.Samples
 	out.Observations = res.Observations
+	out.ObsPaths = res.ObsPaths
 	out.Funcs = eng.FuncsEncoded()
 	out.DepFuncs = eng.DepFuncsEncoded()
 	out.Stubs = eng.StubsUsed
